@@ -123,3 +123,17 @@ PROPS['C07'] = {
     'assumptions': A_COMMON,
     'not_decided': ['RemoveEdges contraction step and its skip rules', 'Resolve / resolveRecur', 'absent lengths (-1) are <= any non-negative threshold: the criterion is applied to the stored value as the code documents'],
 }
+
+PROPS['C14'] = {
+    'level': 'proof', 'claimed': True,
+    'claim': 'unbounded proofs on the real code: pathLengths adds to the running length exactly the metric weight of the branch it crosses (1 for the topological metric; the support, or 1 when absent, for the support metric; the length, or 0 when absent, for the length metric and every other value) and recurses to the neighbour away from where it came, storing the accumulated value at a tip; ToDistanceMatrix returns an n x n matrix whose row i is filled by a walk started at tip i with length 0, tip i carrying identifier i; the length-threshold flood fill crosses exactly the branches with length strictly below the threshold, starts only across such a branch, collects every tip it reaches, and the tip of a cut tip branch gets its own bag',
+    'level_note': 'relative to the local representation invariant INV12 (adjacency arrays parallel, no nil entry) assumed on entry, the assumed contracts of Tips/Edges, the trusted model of sort.Slice (permutation in place). Identifiers of all tips reachable from the walk being < n is an unestablished precondition of pathLengths (no reachability predicate): reported, not claimed. matrix[i][j] == D(i,j) as a sum over the path is the induction over the tree delegated to graph lemma L7/D (A-GRAPH)',
+    'packages': ['./tree', './hashmap'],
+    'functions': ['tree.pathLengths',
+                  ('(*tree.Tree).ToDistanceMatrix', {'match': [r'^callsite', r'^post', r'^inv', r'^bounds', r'^nil', r'^pre\.tree\.pathLengths\.0']}),
+                  '(*tree.Tree).cutEdgesMaxLengthRecur', '(*tree.TipBag).AddTip',
+                  ('(*tree.Tree).CutEdgesMaxLength', {'match': [r'^callsite']})],
+    'trusted_base': TB_COMMON,
+    'assumptions': A_COMMON,
+    'not_decided': ['sum over the path / symmetry / zero diagonal as whole-tree facts (A-GRAPH)', 'AvgDistanceMatrix entrywise mean', 'sorted order of rows (sort.Slice less function)', 'floating-point summation order (A-FP)'],
+}
